@@ -34,6 +34,8 @@ def kits():
     out['nested3'] = dict(fields=[field('l1', 10, Q('Lvl1'), required=True)])
     out['repeated-scalar'] = dict(fields=[field('tags', 10, 'string', repeated=True, required=True)])
     out['repeated-message'] = dict(fields=[field('leaves', 10, Q('Lvl3'), repeated=True, required=True)])
+    out['repeated-bool'] = dict(fields=[field('flags', 10, 'bool', repeated=True, required=True), field('toggles', 11, Q('Toggles'), required=True)])
+    out['repeated-numbers'] = dict(fields=[field('counts', 10, 'int64', repeated=True, required=True), field('ratios', 11, 'double', repeated=True, required=True)])
     out['repeated-enum'] = dict(fields=[field('tones', 10, 'enum:' + Q('Tone'), repeated=True, required=True)])
     out['nested-repeated-enum'] = dict(fields=[field('mix', 10, Q('Mix'), required=True)])
     out['required-message-plain'] = dict(fields=[field('item', 10, Q('Item'), required=True)])
@@ -68,6 +70,7 @@ def build(transport):
             message('Thing', [field('name', 1, 'string')], resource=(f'{DOM}/Thing', 'things/{thing}')),
             message('Mix', [field('tones', 1, 'enum:' + Q('Tone'), repeated=True, required=True), field('tone', 2, 'enum:' + Q('Tone'), required=True),
                             field('nums', 3, 'int32', repeated=True, required=True)]),
+            message('Toggles', [field('switches', 1, 'bool', repeated=True, required=True), field('on', 2, 'bool', required=True)]),
             message('Pair', [field('target', 1, Q('Lvl3'), required=True), field('fallback', 2, Q('Lvl3'), required=True)]),
             message('Resp', [field('ok', 1, 'bool'), field('text', 2, 'string')]),
             message('Item', [field('name', 1, 'string')]),
